@@ -659,6 +659,8 @@ func lexGohtCommandCode(l *lexer) lexFn {
 			return l.errorf("children command does not accept arguments")
 		}
 		l.emit(tChildrenCommand)
+	default:
+		return l.errorf("unknown command: %s", l.current())
 	}
 	l.skipRun("\n\r")
 	return lexGohtLineStart
